@@ -33,6 +33,17 @@ def findings():
     out.append(dict(flag="sa_transpose_id", present=present, got=str(got),
                     what="A.T of a complex Hermitian operator declared SelfAdjoint returns A itself (its transpose is conj(A)); Coq witness C02_sa_transpose_refuted",
                     witness="SelfAdjoint(Kronecker(Dense([[2,1+1j],[1-1j,3]]),Dense([[1]]))).T.to_dense()"))
+    try:
+        B = ops.BlockDiag(ops.Product(ops.ScalarMul(1 - 1j, (1, 1), dtype=np.complex64), ops.Identity((1, 1), np.complex64)))
+        x = np.array([[2 + 1j]])
+        Y = np.asarray(x @ B)
+        present2, got2 = not np.allclose(Y, x * (1 - 1j)), Y.tolist()
+    except Exception as e:
+        present2, got2 = False, f"not reachable: {type(e).__name__}: {e}"
+    out.append(dict(flag="scalar_keeps_annotations", present=present2, got=str(got2),
+                    what="x @ BlockDiag((1-1j) * Identity): the scalar multiple keeps Identity's PSD annotation (C05 finding), so the default left product of the "
+                         "BlockDiag takes the self-adjoint conjugation shortcut and returns x times the CONJUGATE matrix",
+                    witness="[[2+1j]] @ BlockDiag(Product(ScalarMul(1-1j,(1,1)),Identity((1,1),complex64)))"))
     return out
 
 
@@ -47,6 +58,28 @@ def herm_tree(gen, rnd, cplx):
         return dict(k="Prod", ms=[dict(k="Adj", a=B), B])
     S = dict(k="Sum", ms=[B, dict(k="Adj", a=B)])
     return dict(k="Kron", ms=[S, dict(k="Ident", dt=O.leaf_dts(B)[0], n=rnd.randint(1, 2))])
+
+
+def scalar_annot_unsafe(t):
+    """recorded finding scalar_keeps_annotations seen through PLAIN constructors: a Product with exactly one non-scalar
+    factor inherits that factor's annotations whatever the scalar is; Identity / Permutation carry annotations by
+    construction (and composites of them by intersection), so a NON-REAL scalar times such a factor still reports
+    SelfAdjoint and misleads the conjugation shortcut of the default left product of its ancestors"""
+    def leaves_annotated(x):
+        if x["k"] in ("Ident", "Perm"):
+            return True
+        kids = x.get("ms") or ([x["a"]] if isinstance(x.get("a"), dict) else [])
+        return bool(kids) and x["k"] in ("Kron", "BDiag", "Sum", "Transp", "Adj", "Sliced", "Prod", "KronSum") and all(leaves_annotated(y) for y in kids)
+    if t["k"] == "Prod":
+        sc = [m for m in t["ms"] if m["k"] == "Scal"]
+        rest = [m for m in t["ms"] if m["k"] != "Scal"]
+        if sc and len(rest) == 1 and leaves_annotated(rest[0]):
+            c = complex(1, 0)
+            for m in sc:
+                c *= complex(*m["c"])
+            if c.imag != 0:
+                return True
+    return any(scalar_annot_unsafe(y) for y in (t.get("ms") or ([t["a"]] if isinstance(t.get("a"), dict) else [])))
 
 
 def scal_in_prod(t):
@@ -74,6 +107,8 @@ def run(ctx):
 
     def region_ok(t, dx):
         tree_cplx = any(d in T.CPLX for d in O.leaf_dts(t))
+        if "scalar_keeps_annotations" in c05_present and scalar_annot_unsafe(t):
+            return False
         if "sliced_drops_imag" in c01_present and O.sliced_unsafe(t, dx):
             return False
         if O.has_kind(t, ("Gen",)) and not set(O.leaf_dts(t) + [dx]) <= {"float64", "complex128"}:
